@@ -478,7 +478,7 @@ func checkC19(c *c19Case, r *vstat.Run) outcome {
 		if lr, _ := c.Grammar.LeftRecursive(); lr {
 			expect, reason = tagMalformed, "left-recursive system"
 		}
-		if len(c.Grammar.ExtraElide) > 0 {
+		if len(c.Grammar.ExtraElide) > 0 && c.Grammar.ExtraElide[0] != "EOF" {
 			expect, reason = tagMalformed, "an Elide() option names a token type the lexer does not define"
 		}
 		if r != nil && c.Origin == "recsys" {
